@@ -5,12 +5,13 @@ predicates (written from the geometry, independent of the code's masks).
 import importlib
 
 import numpy as np
+from fractions import Fraction
 import z3
 
 import magpylib._src.utility as UT
 from engine.rebind import rebind
 from engine.rowgen import G, NPG, NROWS, asbool, asreal, core_stub, g_all, g_any, g_len, sym_rows, t_sqrt, zabs, zlift
-from engine.symex import Ctx, explore
+from engine.symex import Ctx, Unsupported, explore
 
 MU0 = z3.Real("MU0")
 F = "magpylib._src.fields."
@@ -135,6 +136,9 @@ def eliminate_uninit(assum, outs):
     if not found:
         return outs, None
     vs = list(found.values())
+    if _uninit_unreachable_propositionally(outs):
+        # the masked assignments cover every row by the Boolean structure of the masks alone (e.g. mask4 = ~mask2 * ~mask3)
+        return [z3.simplify(z3.substitute(t, *[(v, z3.RealVal(0)) for v in vs])) for t in outs], True
     a = [z3.substitute(t, *[(v, z3.Real(v.decl().name() + "_a")) for v in vs]) for t in outs]
     b = [z3.substitute(t, *[(v, z3.Real(v.decl().name() + "_b")) for v in vs]) for t in outs]
     s = z3.Solver()
@@ -144,6 +148,57 @@ def eliminate_uninit(assum, outs):
     if s.check() != z3.unsat:
         return outs, False
     return [z3.simplify(z3.substitute(t, *[(v, z3.RealVal(0)) for v in vs])) for t in outs], True
+
+
+def _uninit_unreachable_propositionally(outs):
+    """every occurrence of an `uninit` constant sits under if-then-else conditions that are contradictory already as a propositional formula over
+    the comparison atoms (atoms abstracted to Boolean variables): pure SAT, no arithmetic"""
+    atoms = {}
+
+    def skel(c):
+        k = c.decl().kind()
+        if k in (z3.Z3_OP_AND, z3.Z3_OP_OR, z3.Z3_OP_NOT, z3.Z3_OP_IMPLIES, z3.Z3_OP_XOR) or (k == z3.Z3_OP_ITE and z3.is_bool(c)) or (k in (z3.Z3_OP_EQ, z3.Z3_OP_DISTINCT) and z3.is_bool(c.arg(0))):
+            return c.decl()(*[skel(x) for x in c.children()])
+        if z3.is_true(c) or z3.is_false(c):
+            return c
+        key = c.sexpr()
+        if key not in atoms:
+            atoms[key] = z3.Bool(f"atom_{len(atoms)}")
+        return atoms[key]
+
+    paths = []
+    seen = set()
+
+    def reach(t, conds):
+        if z3.is_const(t):
+            if t.decl().kind() == z3.Z3_OP_UNINTERPRETED and t.decl().name().startswith("uninit"):
+                paths.append(list(conds))
+            return
+        key = (t.get_id(), tuple(c.get_id() for c in conds))
+        if key in seen:
+            return
+        seen.add(key)
+        if t.decl().kind() == z3.Z3_OP_ITE and not z3.is_bool(t):
+            c = t.arg(0)
+            reach(t.arg(1), conds + [c])
+            reach(t.arg(2), conds + [z3.Not(c)])
+            return
+        for ch in t.children():
+            reach(ch, conds)
+            if len(paths) > 5000:
+                return
+
+    for t in outs:
+        reach(t, [])
+    if not paths or len(paths) > 5000:
+        return False
+    for conds in paths:
+        sv = z3.Solver()
+        sv.set("timeout", 5000)
+        sv.add(*[skel(c) for c in conds])
+        if sv.check() != z3.unsat:
+            return False
+    return True
 
 
 def report_problems(rep, sp, label, fnl):
@@ -455,5 +510,78 @@ _chir = Spec("check_chirality", "field_BH_tetrahedron", "check_chirality", dict(
 _chir.out_shape = (4, 3)
 _chir.writes_argument_by_contract = True  # documented: reorders its argument in place; its call sites hand it fresh copies (C08)
 _regc(_chir)
-# current_polyline_Hfield also runs under the shim (2 paths, ~20 s), but "np.empty never reaches the result" and the non-interference
-# obligation need nonlinear real arithmetic that z3/cvc5 do not finish in 30 s: left as an ASSUMED contract (not registered).
+def cel_iter_stub():
+    """assumed contract of special_cel.cel_iter: a row-wise function of its seven (unit-free) row arguments; termination and convergence are NOT
+    part of this contract (C15's bounded stand-in)"""
+    from engine.rowgen import check_same_rows, uf
+
+    def cel_iter(*args):
+        gs = [a for a in args if isinstance(a, G)]
+        tag = gs[0].tag
+        for a in gs[1:]:
+            check_same_rows(tag, a.tag)
+        terms = []
+        for a in args:
+            if not isinstance(a, G) or a.bax != 0 or a.tshape != () or len(a.blocks) != 1:
+                raise Unsupported("cel_iter stub: argument shape")
+            terms.append(asreal(a.blocks[0][()]))
+        out = np.empty((), dtype=object)
+        out[()] = uf("celiter_0", *terms)
+        return G([out], 0, tag, gs[0].layout)
+
+    return cel_iter
+
+
+def rowfun_stub(name, nargs=None):
+    """assumed contract of an elliptic-integral routine (cel, ellipe, ellipk): a row-wise function of its row arguments (constants allowed)"""
+    from engine.rowgen import check_same_rows, uf
+
+    def f(*args):
+        gs = [a for a in args if isinstance(a, G)]
+        if not gs:
+            raise Unsupported(f"{name} stub without batch arguments")
+        tag = gs[0].tag
+        for a in gs[1:]:
+            check_same_rows(tag, a.tag)
+        terms = []
+        for a in args:
+            if isinstance(a, G):
+                if a.bax != 0 or a.tshape != () or len(a.blocks) != 1:
+                    raise Unsupported(f"{name} stub: argument shape")
+                terms.append(asreal(a.blocks[0][()]))
+            elif isinstance(a, (int, float)):
+                terms.append(zlift(a))
+            else:
+                raise Unsupported(f"{name} stub: argument type")
+        out = np.empty((), dtype=object)
+        out[()] = uf(f"{name}_0", *terms)
+        return G([out], 0, tag, gs[0].layout)
+
+    f.__name__ = name
+    return f
+
+
+_cax = Spec("magnet_cylinder_axial_Bfield", "field_BH_cylinder", "magnet_cylinder_axial_Bfield", dict(z0=(), r=(), z=()), dict(cel=lambda: rowfun_stub("celv")), "core",
+            pol=None, homog=0, lengths=(), has_field=False, out_T=True)
+_cax.stub_rules = {"celv": ([Fraction(0)] * 4, Fraction(0), [Fraction(0)] * 4, Fraction(0))}
+_regc(_cax)
+_cdia = Spec("magnet_cylinder_diametral_Hfield", "field_BH_cylinder", "magnet_cylinder_diametral_Hfield", dict(z0=(), r=(), z=(), phi=()),
+             dict(cel=lambda: rowfun_stub("celv"), ellipe=lambda: rowfun_stub("ellipe"), ellipk=lambda: rowfun_stub("ellipk")), "core",
+             pol=None, homog=0, lengths=(), has_field=False, out_T=True)
+_cdia.stub_rules = {"celv": ([Fraction(0)] * 4, Fraction(0), [Fraction(0)] * 4, Fraction(0)), "ellipe": ([Fraction(0)], Fraction(0), [Fraction(0)], Fraction(0)),
+                    "ellipk": ([Fraction(0)], Fraction(0), [Fraction(0)], Fraction(0))}
+_regc(_cdia)
+_circ = Spec("current_circle_Hfield", "field_BH_circle", "current_circle_Hfield", dict(r0=(), r=(), z=(), i0=()), dict(cel_iter=cel_iter_stub), "core",
+             pre=lambda a: [col(a, "r0") > 0, col(a, "r") > 0], pol="i0", homog=-1, lengths=("r0", "r", "z"), has_field=False, out_T=True)
+_circ.stub_rules = {"celiter": ([Fraction(0)] * 7, Fraction(0), [Fraction(0)] * 7, Fraction(0))}
+_regc(_circ)
+_pin = Spec("point_inside", "field_BH_tetrahedron", "point_inside", dict(points=(3,), vertices=(4, 3)), {}, "core", pol=None, homog=0, lengths=("points", "vertices"),
+            has_field=False, extra_kwargs=dict(in_out="auto"))
+_pin.out_shape = ()
+_regc(_pin)
+# current_polyline_Hfield: homogeneity, linearity and no-argument-write are decided by typing / the write log on the real code; the
+# non-interference obligation needs nonlinear real arithmetic that z3/cvc5 do not finish in 30 s: row-wise stays an ASSUMED contract.
+_poly = Spec("current_polyline_Hfield", "field_BH_polyline", "current_polyline_Hfield", dict(observers=(3,), segments_start=(3,), segments_end=(3,), currents=()), {}, "core",
+             pol="currents", homog=-1, lengths=("observers", "segments_start", "segments_end"), has_field=False, extra_ns=dict(norm=NPG.linalg.norm))
+_poly.skip_rowwise = True
+_regc(_poly)
